@@ -110,6 +110,8 @@ impl AuthorityLockGuard {
                     lock_path.display()
                 )
             })?;
+        #[cfg(feature = "verif")]
+        rip_kernel::verif::point("auth.created", "");
 
         let record = AuthorityLockRecord {
             pid: std::process::id(),
@@ -122,6 +124,8 @@ impl AuthorityLockGuard {
             .and_then(|()| file.write_all(b"\n"))
             .map_err(|err| format!("write lock record failed: {err}"))?;
         let _ = file.flush();
+        #[cfg(feature = "verif")]
+        rip_kernel::verif::point("auth.written", "");
 
         Ok(Self {
             lock_path,
@@ -150,8 +154,14 @@ impl AuthorityLockGuard {
 
 impl Drop for AuthorityLockGuard {
     fn drop(&mut self) {
+        #[cfg(feature = "verif")]
+        rip_kernel::verif::point("auth.drop.begin", "");
         let _ = fs::remove_file(&self.meta_path);
+        #[cfg(feature = "verif")]
+        rip_kernel::verif::point("auth.drop.meta", "");
         let _ = fs::remove_file(&self.lock_path);
+        #[cfg(feature = "verif")]
+        rip_kernel::verif::point("auth.drop.lock", "");
     }
 }
 
@@ -202,6 +212,8 @@ pub fn try_cleanup_stale_authority_files(
     if lock.pid != expected_pid {
         return Ok(false);
     }
+    #[cfg(feature = "verif")]
+    rip_kernel::verif::point("auth.stale.reread", "");
 
     let lock_tombstone = lock_path.with_file_name(format!(
         "{}.stale-{}-{}-{}",
@@ -216,6 +228,8 @@ pub fn try_cleanup_stale_authority_files(
         Err(err) if err.kind() == std::io::ErrorKind::NotFound => return Ok(false),
         Err(err) => return Err(format!("rename stale lock failed: {err}")),
     }
+    #[cfg(feature = "verif")]
+    rip_kernel::verif::point("auth.stale.renamed", "");
 
     if let Ok(Some(meta)) = read_authority_meta(&data_dir) {
         if meta.pid == expected_pid {
@@ -232,6 +246,8 @@ pub fn try_cleanup_stale_authority_files(
         }
     }
 
+    #[cfg(feature = "verif")]
+    rip_kernel::verif::point("auth.stale.meta", "");
     let _ = fs::remove_file(lock_tombstone);
     Ok(true)
 }
@@ -245,6 +261,8 @@ pub fn try_cleanup_corrupt_lock_file(data_dir: impl AsRef<Path>) -> Result<bool,
     if authority_meta_path(&data_dir).exists() {
         return Ok(false);
     }
+    #[cfg(feature = "verif")]
+    rip_kernel::verif::point("auth.corrupt.checked", "");
 
     let tombstone = lock_path.with_file_name(format!(
         "{}.corrupt-{}-{}",
@@ -257,6 +275,8 @@ pub fn try_cleanup_corrupt_lock_file(data_dir: impl AsRef<Path>) -> Result<bool,
         Err(err) if err.kind() == std::io::ErrorKind::NotFound => return Ok(false),
         Err(err) => return Err(format!("rename corrupt lock failed: {err}")),
     }
+    #[cfg(feature = "verif")]
+    rip_kernel::verif::point("auth.corrupt.renamed", "");
 
     let _ = fs::remove_file(tombstone);
     Ok(true)
@@ -269,7 +289,12 @@ fn atomic_write_file(path: &Path, payload: &[u8]) -> std::io::Result<()> {
     let tmp = path.with_extension("tmp");
     fs::write(&tmp, payload)?;
     let _ = fs::remove_file(path);
+    #[cfg(feature = "verif")]
+    rip_kernel::verif::point("auth.meta.removed", "");
     fs::rename(tmp, path)?;
+    #[cfg(feature = "verif")]
+    rip_kernel::verif::point("auth.meta.renamed", "");
+
     Ok(())
 }
 
